@@ -1,6 +1,6 @@
 """C20 - unassigned opcodes are soft-fork-safe no-ops."""
 from __future__ import annotations
-from .. import env, hyp, optable as O, refasm as R
+from .. import env, hyp, optable as O, refasm as R, monitors
 from hypothesis import strategies as st
 
 F, P, T = env.F, env.P, env.T
@@ -353,6 +353,9 @@ def task_fork(ctx):
             try:
                 script = R.encode(lower(tree))
             except R.NotEncodable:
+                return
+            if not monitors.within_budget([script]):
+                ctx.count('skipped:work-explodes (step budget)')
                 return
             fails, info = check_fork_script(code, kind, name, aliases, script)
             nt = (kind != 'never' and _has_raising_use(tree, code)) or _uses_nested(tree, code)
